@@ -16,7 +16,7 @@
     before/after oracle. *)
 From DV Require Import Model.Base Model.NameCheck Model.Parser Model.Header Model.Readers Model.Uncompress
   Model.Mutate Spec.PlainSpec Proofs.Hoare Proofs.HeaderBits Proofs.InsertLemmas Proofs.PlainWf Proofs.InsertFail Proofs.InsertSpec Proofs.HeaderInv Spec.RecordSpec Proofs.WalkSkip Proofs.ReplaceInv Proofs.Totality
-  Model.Renamer Proofs.FailAtomic Spec.NameSpec Proofs.RenameSpec Proofs.RenameContent Proofs.RenameAny.
+  Model.Renamer Proofs.FailAtomic Spec.NameSpec Proofs.RenameSpec Proofs.RenameContent Proofs.RenameAny Proofs.WalkFresh Proofs.CursorHist Proofs.RenameTotal.
 
 Theorem C10_insert_bound : forall sec rr s s',
   m_insert_rr sec rr s = (s', Ok tt) -> (N.of_nat (length (pp_packet (fst s'))) <= 8192)%N.
@@ -130,3 +130,21 @@ Theorem C10_rename_total_on_decompressed : forall v it sl tl sfx, dinv v ->
   (exists e, m_rename (wire_of_labels tl) (wire_of_labels sl) sfx (v, it) = ((v, it), Err e)).
 Proof. exact rename_total_dinv. Qed.
 Print Assumptions C10_rename_total_on_decompressed.
+
+(** every operation of the histories that mix whole-packet renames with the cursor operations (vocabulary: C08_rename_history_vocabulary
+    in props/C08.v), applied to an object that is its own fresh parse: it succeeds or reports an error, never a Panic outcome, and what
+    a refused operation leaves is again an object that is its own fresh parse, cursor untouched *)
+Theorem C10_step_with_rename_outcome : forall o v it, objst v -> is_response (pp_packet v) -> it_section it <> SQuestion -> hop4_ok_at v o ->
+  exists s1 r, run_hop4 o (v, it) = (s1, r) /\ (r = Ok tt \/ exists e, r = Err e) /\
+               objst (fst s1) /\ snd s1 = it /\ is_response (pp_packet (fst s1)).
+Proof. exact hop4_outcome. Qed.
+Print Assumptions C10_step_with_rename_outcome.
+
+(** one decompress-first operation on a packet as the parser returned it (recompute, insertion, deletion or owner-name change through a
+    cursor): success or an error, the object left in pointer-free form with the view of its parse, or untouched *)
+Theorem C10_first_operation_outcome : forall p v it o, bytes_ok p -> parse p = Ok v -> is_response p -> it_section it <> SQuestion ->
+  decompresses_first o -> hop3_ok_at v o ->
+  exists s1 r, run_hop3 o (v, it) = (s1, r) /\ (r = Ok tt \/ exists e, r = Err e) /\
+               objst (fst s1) /\ snd s1 = it /\ is_response (pp_packet (fst s1)).
+Proof. exact first_hop3_outcome. Qed.
+Print Assumptions C10_first_operation_outcome.
